@@ -218,24 +218,34 @@ def r_C07(root):
     return inst, out
 def r_C05_C10(root):
     out = []; inst = 0
-    t = load(root, M); gc = find(t, "get_children"); fol = find(gc, "follow")
+    t = load(root, M); fol = find_i(root, M, "get_children.follow")
     fi_f = sem.info(fol)
-    for c in [c for c in calls(fol, own=True) if callee_name(c) == "follow"]:
+    recs_c = [c for c in calls(fol, own=True) if callee_name(c) == "follow"]
+    if not recs_c: raise AnalysisError("get_children.follow: recursive descent not found")
+    for c in recs_c:
         inst += 1
-        gl = fi_f.guards(c)
-        g = [ast.unparse(x) for x, pol in gl if pol] + ["not " + ast.unparse(x) for x, pol in gl if not pol]
-        if not any(x in ("attr.cont", "not not attr.cont") for x in g): out.append(Finding("C05", "C05.a", M, "get_children.follow", ast.unparse(c), "descent through an attribute that is not tested for containment"))
-        if not any("should_follow" in x for x in g): out.append(Finding("C05", "C05.b", M, "get_children.follow", ast.unparse(c), "should_follow is not honoured"))
+        at = [(a.replace(" ", ""), pol) for a, pol in fi_f.atoms_at(c)]
+        okc = any(a.endswith(".cont") and pol for a, pol in at)
+        oks = any("should_follow(" in a and pol for a, pol in at)
+        ob("C05", "C05.a", M, "get_children.follow", "descent %s under containment test" % ast.unparse(c), okc)
+        if not okc: out.append(Finding("C05", "C05.a", M, "get_children.follow", ast.unparse(c), "descent through an attribute that is not tested for containment"))
+        if not oks: out.append(Finding("C05", "C05.b", M, "get_children.follow", ast.unparse(c), "should_follow is not honoured"))
     inst += 1
-    if not any(isinstance(n, ast.If) and "id(elem) in collected_ids" in ast.unparse(n.test) and any(isinstance(b, ast.Return) for b in n.body) for n in fol.body[:2]): out.append(Finding("C05", "C05.b", M, "get_children.follow", "visited check", "objects can be collected more than once"))
-    apps = [n for n in fol.body if isinstance(n, ast.If) and any(callee_name(c) == "append" for c in calls(n))]
-    recs = [n for n in fol.body if isinstance(n, ast.If) and any(callee_name(c) == "follow" for c in calls(n))]
+    # visited check: an early return for an element whose id is already in the visited set, before anything is collected
+    vis = [n for n in own_nodes(fol) if isinstance(n, ast.If) and any(isinstance(b, ast.Return) for b in n.body) and any(isinstance(x, ast.Compare) and isinstance(x.ops[0], ast.In) and "id(" in ast.unparse(x.left) for x in ast.walk(n.test))]
+    apps_c = [c for c in calls(fol, own=True) if callee_name(c) == "append" and isinstance(c.func, ast.Attribute)]
+    if not apps_c: raise AnalysisError("get_children.follow: collection of elements not found")
+    nid = lambda x: (fi_f.node_of(x).id if fi_f.node_of(x) is not None else -1)
+    okv = bool(vis) and all(nid(vis[0].test) < nid(a) for a in apps_c)
+    ob("C05", "C05.b", M, "get_children.follow", "visited check before collection", okv)
+    if not okv: out.append(Finding("C05", "C05.b", M, "get_children.follow", "visited check", "objects can be collected more than once"))
+    # children_first: the collection under `not children_first` precedes every descent, the one under `children_first` follows every descent
     inst += 1
-    if len(apps) == 2 and recs:
-        pre, post = apps
-        if not ("not children_first" in ast.unparse(pre.test) and pre.lineno < recs[0].lineno and "children_first" in ast.unparse(post.test) and "not children_first" not in ast.unparse(post.test) and post.lineno > recs[0].lineno):
-            out.append(Finding("C05", "C05.b", M, "get_children.follow", "children_first", "collection order does not follow children_first"))
-    else: out.append(Finding("C05", "C05.b", M, "get_children.follow", "children_first", "pre/post collection structure not found"))
+    pre = [a for a in apps_c if any(x.replace(" ", "") == "children_first" and not pol for x, pol in fi_f.atoms_at(a))]
+    post = [a for a in apps_c if any(x.replace(" ", "") == "children_first" and pol for x, pol in fi_f.atoms_at(a))]
+    oko = bool(pre) and bool(post) and len(pre) + len(post) == len(apps_c) and all(nid(a) < min(nid(r) for r in recs_c) for a in pre) and all(nid(a) > max(nid(r) for r in recs_c) for a in post)
+    ob("C05", "C05.b", M, "get_children.follow", "collection before the descent unless children_first, after it if children_first", oko)
+    if not oko: out.append(Finding("C05", "C05.b", M, "get_children.follow", "children_first", "collection order does not follow children_first (pre-order collection before every descent, post-order after)"))
     # C10
     P = "textx/scoping/providers.py"; fo = find_i(root, P, "FQN.__call__._find_obj_fqn.find_obj"); inst += 1
     fi_fo = sem.info(fo)
